@@ -210,5 +210,28 @@ func cosiFullVerify(c *Check) {
 	if f := c.F("(*crypto.CosiSignature).Keys"); f != nil {
 		ok := len(findIfs(f, Bin(token.LSS, nil, ConstInt(64)))) == 2 // entry test and back-edge test of `for i := range uint64(64)`
 		c.Require(ok, "constfact", shortName(f)+"|64 positions", "Keys() enumerates all 64 bit positions of the mask", "loop bound changed")
+		// an index is listed exactly when its mask bit is set
+		shl := Bin(token.SHL, ConstInt(1), AnyV)
+		bit := findIfs(f, Bin(token.EQL, BinEither(token.AND, Path(Param("c"), "Mask"), shl), shl))
+		okb := len(bit) == 1
+		if okb {
+			hasAppend := func(b *ssa.BasicBlock) bool {
+				for _, ins := range b.Instrs {
+					if cl, isCall := ins.(*ssa.Call); isCall && calleeName(&cl.Call) == "builtin:append" {
+						return true
+					}
+				}
+				return false
+			}
+			okb = hasAppend(bit[0].Block().Succs[0]) && !hasAppend(bit[0].Block().Succs[1])
+			n := 0
+			eachInstr(f, func(b *ssa.BasicBlock, ins ssa.Instruction) {
+				if cl, isCall := ins.(*ssa.Call); isCall && calleeName(&cl.Call) == "builtin:append" {
+					n++
+				}
+			})
+			okb = okb && n == 1
+		}
+		c.Require(okb, "shape", shortName(f)+"|index listed iff its bit is set", "the only append of Keys() sits on the true edge of c.Mask&(1<<i) == (1<<i)", "bit test or append placement changed")
 	}
 }
